@@ -143,7 +143,20 @@ func flagName(f int) string {
 var (
 	allUmasks = []oct{0o022, 0o000, 0o002, 0o027, 0o077}
 	allPerms  = []oct{0o666, 0o600, 0o777, 0o2755}
-	chownAll  = []string{"self", "uid-other", "gid-own", "gid-other", "noop", "uid-self"}
+	chownAll  = []string{"self", "uid-other", "gid-own", "gid-other", "noop", "uid-self", "uid-other+gid-own", "uid-self+gid-other", "uid-other+gid-other"}
+
+	// chownMixed: BOTH fields given, one acceptable on its own and the other not,
+	// in both orders of acceptability, and both unacceptable. Lesson: a call with
+	// several arguments that are validated one after the other can store the
+	// first before it refuses the second; the errno is right, the state is not.
+	// Forms with a single field (or two acceptable ones) cannot show that: every
+	// multi-field call is enumerated with each field acceptable / unacceptable
+	// independently, and the state after the refusal is compared (worker.go).
+	// Which field is "acceptable" depends on the node as well: for the owner a
+	// group is acceptable when it is his own OR the current one of the node, so
+	// "uid-other+gid-other" on a node of the other group is again "user refused,
+	// group fine", and "uid-self+gid-other" on such a node is allowed as a whole.
+	chownMixed = []string{"uid-other+gid-own", "uid-self+gid-other", "uid-other+gid-other"}
 )
 
 // resolveChown gives the numeric arguments of a chown form for an actor.
@@ -171,6 +184,12 @@ func resolveChown(form string, a user) (uid, gid int) {
 		return -1, -1
 	case "uid-self":
 		return a.Uid, -1
+	case "uid-other+gid-own":
+		return otherUid, a.Gid
+	case "uid-self+gid-other":
+		return a.Uid, otherGid
+	case "uid-other+gid-other":
+		return otherUid, otherGid
 	}
 
 	panic("chown form " + form)
@@ -218,7 +237,7 @@ func callsF(tier string, dest string) []callT {
 	}
 
 	// File methods on a handle opened by the acting user
-	fchown := []string{"self", "uid-other", "gid-own"}
+	fchown := append([]string{"self", "uid-other", "gid-own"}, chownMixed...)
 	if tier == "thorough" {
 		fchown = chownAll
 	}
@@ -267,13 +286,19 @@ func callsD(tier string, dest string) []callT {
 		{Op: "File.Chmod", Variant: "RDONLY,0750", Flag: os.O_RDONLY, Perm: 0o750, Umask: um},
 		{Op: "Chown", Variant: "gid-own", Form: "gid-own", Umask: um},
 		{Op: "Chown", Variant: "uid-other", Form: "uid-other", Umask: um},
+		{Op: "Chown", Variant: "uid-other+gid-own", Form: "uid-other+gid-own", Umask: um},
+		{Op: "Chown", Variant: "uid-self+gid-other", Form: "uid-self+gid-other", Umask: um},
+		{Op: "File.Chown", Variant: "RDONLY,uid-other+gid-own", Flag: os.O_RDONLY, Form: "uid-other+gid-own", Umask: um},
 		{Op: "Chmod", Variant: "0750", Perm: 0o750, Umask: um},
 		{Op: "Chmod", Variant: "2755", Perm: 0o2755, Umask: um},
 	}
 
 	if tier == "thorough" {
 		cs = append(cs, callT{Op: "Chmod", Variant: "1777", Perm: 0o1777, Umask: um},
-			callT{Op: "Chown", Variant: "noop", Form: "noop", Umask: um})
+			callT{Op: "Chown", Variant: "noop", Form: "noop", Umask: um},
+			callT{Op: "Chown", Variant: "uid-other+gid-other", Form: "uid-other+gid-other", Umask: um},
+			callT{Op: "File.Chown", Variant: "RDONLY,uid-self+gid-other", Flag: os.O_RDONLY, Form: "uid-self+gid-other", Umask: um},
+			callT{Op: "File.Chown", Variant: "RDONLY,uid-other+gid-other", Flag: os.O_RDONLY, Form: "uid-other+gid-other", Umask: um})
 	}
 
 	cs = append(cs,
@@ -320,7 +345,7 @@ func callsL(tier string, dest string) []callT {
 		{Op: "ReadFile", Umask: um},
 	}
 
-	forms := []string{"self", "uid-other", "gid-own", "noop"}
+	forms := []string{"self", "uid-other", "gid-own", "noop", "uid-other+gid-own", "uid-self+gid-other"}
 	if tier == "thorough" {
 		forms = chownAll
 	}
